@@ -64,6 +64,16 @@ pub struct Compiler {
     /// Enums declared so far, with the block scope they were declared in: a second
     /// declaration of the same name in the same scope merges into the first.
     declared_enums: Vec<(JsString, Option<usize>)>,
+
+    /// Namespaces being compiled, outermost first
+    ns_path: Vec<String>,
+
+    /// Members exported so far by each namespace (keyed by its dotted path), with
+    /// whether they may be assigned; later blocks of a merged namespace see them.
+    ns_exports: FxHashMap<String, Vec<(JsString, bool)>>,
+
+    /// Non-exported namespaces declared inside namespace bodies, with their scope
+    ns_locals: Vec<(JsString, Option<usize>)>,
 }
 
 /// What a derived-class constructor has to initialize once `super(...)` has returned.
@@ -129,6 +139,9 @@ impl Compiler {
             source_file: None,
             derived_ctor_init: None,
             declared_enums: Vec::new(),
+            ns_path: Vec::new(),
+            ns_exports: FxHashMap::default(),
+            ns_locals: Vec::new(),
         }
     }
 
